@@ -1,6 +1,6 @@
 (* C11 property theorems only. *)
 From Coq Require Import List NArith Bool Arith.
-From Verif Require Import C11.Model_C11 C11.Proofs_C11 C11.ModelS_C11 C11.ProofsS_C11.
+From Verif Require Import C11.Model_C11 C11.Proofs_C11 C11.Proofs1_C11 C11.ModelS_C11 C11.ProofsS_C11.
 Import ListNotations.
 
 (* For every configuration, every behaviour of the operations, every number of workers and EVERY
@@ -28,6 +28,15 @@ Theorem C11_closed_unless_interrupted_partial : forall c sched n os,
   cp s = CDone -> stop s = false -> all_closed (trace s) = true.
 Proof. exact closed_unless_interrupted. Qed.
 Print Assumptions C11_closed_unless_interrupted_partial.
+
+(* ... and with ONE worker for every max_failures as well: its events are produced strictly one scenario after the
+   other, so the emitted prefix is balanced wherever the consumer stops (dead worker or failure limit). *)
+Theorem C11_closed_unless_interrupted_one_worker : forall c sched os,
+  drain_fix c = true ->
+  let s := run c sched (init 1 os) in
+  cp s = CDone -> stop s = false -> all_closed (trace s) = true.
+Proof. exact closed_one_worker. Qed.
+Print Assumptions C11_closed_unless_interrupted_one_worker.
 
 (* ... and is false with a failure limit and two workers (finding C11-F2). *)
 Theorem C11_closed_unless_interrupted_refuted : exists c sched n os,
